@@ -105,6 +105,41 @@ func (e *Engine) verifyFunc(bc *BoundContract) (res *FuncResult) {
 			cx.assume(g)
 		}
 	}
+	for _, wc := range bc.C.Witness {
+		func() {
+			defer func() {
+				if r := recover(); r != nil {
+					cx.undecide("cannot bind witness `%s`: %v", wc.Text, r)
+				}
+			}()
+			v := env.eval(wc.Expr)
+			if v.t == nil {
+				v = env.coerce(v, nil)
+			}
+			nt := b.Name("witness", v.t)
+			cx.witness = append(cx.witness, witnessTerm{text: wc.Text, t: nt, mark: b.Mark()})
+		}()
+	}
+	for _, sp := range bc.C.Splits {
+		func() {
+			defer func() {
+				if r := recover(); r != nil {
+					cx.undecide("cannot bind split `%s`: %v", sp.Text, r)
+				}
+			}()
+			v := env.eval(sp.Expr)
+			var lo, hi int
+			fmt.Sscan(sp.Label, &lo, &hi)
+			bits, _ := v.t.sort.IsBV()
+			var cases []*Term
+			for k := lo; k <= hi; k++ {
+				cases = append(cases, b.Eq(v.t, b.BV(uint64(1)<<uint(k), bits)))
+			}
+			// exhaustiveness is itself an obligation
+			cx.newObligation("split", "exhaustive", sp.Text, fmt.Sprintf("%s:%d", sp.File, sp.Line), b.True(), b.Or(cases...), bc.C.Props)
+			cx.splits = append(cx.splits, cases)
+		}()
+	}
 	// cover: preconditions satisfiable
 	cov := cx.newObligation("cover", "requires", "the precondition is satisfiable", "", b.True(), b.False(), bc.C.Props)
 	cov.IsCover = true
@@ -126,9 +161,17 @@ func (e *Engine) verifyFunc(bc *BoundContract) (res *FuncResult) {
 		bc.bindResults(rvars, results)
 		env2 := &SpecEnv{cx: cx, pkg: pkg, vars: rvars, cur: exitSt, old: entry}
 		for i, en := range bc.C.Ensures {
+			if en.Assumed {
+				continue
+			}
 			if g := fr.evalClause(env2, en); g != nil {
 				o := cx.newObligation("ensures", clauseLabel(en, i), en.Text, fmt.Sprintf("%s:%d", en.File, en.Line), exitReach, g, clauseProps(en, bc.C.Props))
 				_ = o
+			}
+		}
+		for _, fname := range bc.C.Fresh {
+			if rv, ok := rvars[fname]; ok && rv.t != nil && rv.t.sort == SLoc {
+				cx.newObligation("ensures", "fresh-"+fname, "result "+fname+" is a freshly allocated object", fmt.Sprintf("%s:%d", bc.C.File, bc.C.Line), exitReach, b.mk("(_ is New)", SBool, rv.t), bc.C.Props)
 			}
 		}
 		// frame
@@ -155,6 +198,32 @@ func (e *Engine) verifyFunc(bc *BoundContract) (res *FuncResult) {
 	for k := range cx.trusted {
 		res.Trusted = append(res.Trusted, k)
 	}
+	return res
+}
+
+// verifyLemma checks an inline lemma: closed boolean spec expressions.
+func (e *Engine) verifyLemma(lm *Lemma) (res *FuncResult) {
+	res = &FuncResult{}
+	defer func() {
+		if r := recover(); r != nil {
+			if se, ok := r.(specError); ok {
+				res.Undecided = append(res.Undecided, "lemma "+lm.Name+": spec error: "+se.msg)
+				return
+			}
+			res.Undecided = append(res.Undecided, fmt.Sprintf("lemma %s: engine failure: %v", lm.Name, r))
+		}
+	}()
+	w, _ := e.newWorld()
+	cx := &Ctx{eng: e, w: w, h0: map[string]*Term{}, trusted: map[string]bool{}, names: map[string]int{}, axiomsFor: map[string]bool{}, nameBase: "lemma " + lm.Name}
+	pkg := e.typesPackage(lm.PkgPath)
+	st := newState()
+	env := &SpecEnv{cx: cx, pkg: pkg, vars: map[string]Val{}, cur: st, old: st}
+	for i, en := range lm.Ensures {
+		g := env.evalBool(en.Expr)
+		cx.newObligation("lemma", clauseLabel(en, i), en.Text, fmt.Sprintf("%s:%d", en.File, en.Line), w.b.True(), g, lm.Props)
+	}
+	res.Obls = cx.obls
+	res.Undecided = cx.undecided
 	return res
 }
 
